@@ -350,3 +350,33 @@ func zzC20History() {
 	}
 	vReach("end")
 }
+
+// C10/C20: one store shared by the sessions of a handler, each with a standalone stream of the same id "": what is
+// appended for one session is replayed to that session only, whatever the order of the appends.
+func zzC20TwoSessions() {
+	s := NewMemoryEventStore(nil)
+	all := map[string][][]byte{"S": nil, "T": nil}
+	steps := vParam("steps")
+	for i := 0; i < steps; i++ {
+		sess := "S"
+		if vBool("otherSession") {
+			sess = "T"
+		}
+		d := vBytes("d", 1<<20)
+		vAssert(s.Append(context.Background(), sess, "", d) == nil, "C20.two.append-ok")
+		all[sess] = append(all[sess], d)
+	}
+	for _, sess := range []string{"S", "T"} {
+		if len(all[sess]) == 0 {
+			continue
+		}
+		got, gerr := zzCollect(s, sess, "", -1)
+		vAssert(gerr == nil && len(got) == len(all[sess]), "C10.store.replay-holds-exactly-that-sessions-events")
+		for k := range got {
+			if k < len(all[sess]) {
+				vAssert(vSame(got[k], all[sess][k]), "C10.store.replay-holds-exactly-that-sessions-events")
+			}
+		}
+	}
+	vReach("end")
+}
